@@ -90,6 +90,7 @@ class Trace:
                           later_nonempty_batches=0, ee=0, sd=0, resumes=0, empty_removed=0, sampling_batches=0,
                           exploration_batches=0, neg_inf=0)
         self.eval_log = []      # (points passed to evaluate_likelihood)
+        self.blob_shapes = set()  # (batch size, shape of the blob array evaluate_likelihood returned)
         self.call_log = 0       # number of likelihood calls seen by the instrumented likelihood
 
     in_run = False
@@ -257,7 +258,10 @@ def make_traced(nautilus):
 
         def evaluate_likelihood(self, points):
             self.tr.eval_log.append(np.array(points))
-            return super().evaluate_likelihood(points)
+            res = super().evaluate_likelihood(points)
+            if res[1] is not None:
+                self.tr.blob_shapes.add((len(points), tuple(int(x) for x in np.shape(res[1]))))
+            return res
 
         def add_samples(self, shell, verbose=False):
             tr = self.tr
